@@ -58,9 +58,19 @@ _RE_COV = re.compile(r"^<(\w+) line (\d+), col (\d+) to line (\d+), col (\d+) of
 _RE_STATE_HDR = re.compile(r"^State (\d+): <(.*?)>\s*$", re.M)
 
 
-def extract_records(out: str, marker: str = '<<"VERIF"') -> list[Any]:
+def extract_records(out: str, marker: str = '<<"VERIF"') -> list[Any]:  # noqa: C901
     """Find every PrintT record that starts with the marker (bracket matching: 16 workers interleave lines)."""
     recs = []
+    # single-line form: PrintT(ToString(<<"VERIF", ...>>)) prints a quoted, escaped string per line
+    esc = '"<<\\"VERIF\\"'
+    if esc in out:
+        for ln in out.splitlines():
+            if ln.startswith(esc):
+                body = ln.strip()[1:-1].replace('\\"', '"').replace("\\\\", "\\")
+                try:
+                    recs.append(tlaval.parse(body))
+                except tlaval.TLAParseError:
+                    pass
     i = 0
     while True:
         j = out.find(marker, i)
